@@ -4,6 +4,7 @@ from pyvc.vtypes import *
 from pyvc.contract import Contract, LoopContract
 from pyvc import theory as T
 from pyvc import pnmodel as P
+from pyvc import engine as ENG
 
 G = P.PNGraph
 n, m = z3.Const("n", P.PNode), z3.Const("m", P.PNode)
@@ -43,13 +44,33 @@ def restricted_nodes(g, T_, which):
     return lambda x: z3.And(G.nodes(g)[x], z3.Not(z3.Exists([v], z3.And(which(v), applicable(g, T_, v), in_del(g, T_, v, x)))))
 
 
+def v2p_text(variable, positive):
+    return z3.If(positive, z3.Concat(z3.StringVal("b1_"), variable), z3.Concat(z3.StringVal("b0_"), variable))
+
+
 def install(reg):
+    from pyvc.strmodel import TStr
+    # The two string functions are verified over real strings (String theory) under the names *.text;
+    # everywhere else place names are the injective constructor place(variable, positive), which the
+    # round-trip lemma S.place_roundtrip (proved by SMT on every run) justifies.
     reg.add(Contract(
-        "biobalm.petri_net_translation.variable_to_place", params=[("variable", TName), ("positive", TBool)], result_type=P.TPNode,
-        properties=("C10", "C09"), trusted=True,
-        pure=lambda c: Val(P.TPNode, P.place(c.variable, c.positive)),
-        note="f'b1_{variable}' / f'b0_{variable}': modelled as the injective constructor place(variable, positive); injectivity "
-             "(round trip with place_to_variable) is a string-theory fact, checked by the bounded stand-in",
+        "biobalm.petri_net_translation.variable_to_place", params=[("variable", TStr), ("positive", TBool)], result_type=TStr,
+        properties=("C10", "C09", "C17"),
+        ensures=[("text", lambda c: c.result == v2p_text(c.variable, c.positive))],
+        custom_apply=lambda eng, st, c, argmap, exprmap, node: Val(P.TPNode, P.place(argmap["variable"].t, eng.truth(argmap["positive"]))),
+        note="call sites use the abstract constructor place(variable, positive)",
+    ))
+    TT = TTuple(TStr, TBool)
+    reg.add(Contract(
+        "biobalm.petri_net_translation.place_to_variable", params=[("place", TStr)], result_type=TT,
+        properties=("C10", "C09", "C17"),
+        raises={"Exception": [("only_for_non_places", lambda c: z3.And(z3.Not(z3.PrefixOf(z3.StringVal("b1_"), c.place)),
+                                                                       z3.Not(z3.PrefixOf(z3.StringVal("b0_"), c.place))))]},
+        ensures=[("inverse_of_variable_to_place", lambda c: z3.And(
+            z3.Or(z3.PrefixOf(z3.StringVal("b1_"), c.place), z3.PrefixOf(z3.StringVal("b0_"), c.place)),
+            TT.get(c.result, 1) == z3.PrefixOf(z3.StringVal("b1_"), c.place),
+            c.place == v2p_text(TT.get(c.result, 0), TT.get(c.result, 1))))],
+        custom_apply=lambda eng, st, c, argmap, exprmap, node: ENG._PyTuple([Val(TName, P.pvar(argmap["place"].t)), vbool(P.ppos(argmap["place"].t))]),
     ))
 
     def post(c):
